@@ -469,6 +469,8 @@ class Checker:
                 self.expect_construct = True
                 self.queue.clear()
                 self.stack = []
+                if ev.get("active"):
+                    self.active = set(ev["active"]) | {"sm"}
                 if ev.get("reuse") and self.state is not None:
                     self.quiet_step = "C11.resume-untouched"
                     self.constructed_over_stored = True
@@ -1084,6 +1086,12 @@ class Checker:
     def on_note(self, ev):
         if ev.get("what") == "instance-isolation":
             self.rej("C12.instance-isolation", ev.get("detail"))
+        if ev.get("what") == "clone":
+            self.stats["clones"] = self.stats.get("clones", 0) + 1
+            if ev.get("problems"):
+                self.rej("C17.clone-equivalent-at-copy", "; ".join(ev["problems"]))
+        if ev.get("what") == "clone-failed":
+            self.rej("C17.clone-equivalent-at-copy", f"{ev.get('how')} failed: {ev.get('exc')}")
         if ev.get("what") == "other-definition":
             self.stats["other_definitions"] = self.stats.get("other_definitions", 0) + 1
         if ev.get("what") == "poke":
